@@ -204,3 +204,75 @@ Theorem content_keyed_prune_refuted :
   (* by content: the leaf of the proven key is pruned as well *)
   pruned_at (Some (Some (prove_key_by_content twin_dict [true]))) [1%nat] = Some true.
 Proof. repeat split; vm_compute; reflexivity. Qed.
+
+(** *** cursors are values
+    A Prune on cursor variable [v] prunes the position [v] got when it was
+    created, whatever Ref/Prune happened on other cursors in between. *)
+Lemma prog_run_pruned_kept : forall is vars pruned p,
+  In p pruned -> In p (prog_run vars pruned is).
+Proof.
+  induction is as [|[src k|v] t IH]; intros vars pruned p Hin; cbn [prog_run]; [exact Hin| |].
+  - destruct (nth_error vars src); apply IH; exact Hin.
+  - destruct (nth_error vars v); apply IH; [apply in_or_app; left|]; exact Hin.
+Qed.
+
+Theorem cursor_position_fixed : forall pre vars pruned v p post,
+  nth_error vars v = Some p ->
+  In p (prog_run vars pruned (pre ++ IPrune v :: post)).
+Proof.
+  induction pre as [|[src k|w] t IH]; intros vars pruned v p post Hv; cbn [app prog_run].
+  - rewrite Hv. apply prog_run_pruned_kept. apply in_or_app. right. left. reflexivity.
+  - destruct (nth_error vars src); apply IH; [|exact Hv].
+    rewrite nth_error_app1; [exact Hv|]. apply nth_error_Some. rewrite Hv. discriminate.
+  - destruct (nth_error vars w); apply IH; exact Hv.
+Qed.
+
+(** the design of seeded mutation C18-r5m1: the position is a Go byte slice
+    extended by [append].  A slice is (array, length); [append] writes IN PLACE
+    at index [length] when the array has spare capacity (all arrays here have
+    capacity 8; the root cursor's slice is nil, so its first append
+    allocates).  Two children taken from the same parent then share the byte
+    that tells them apart. *)
+Record slice := mkS { s_arr : option nat; s_len : nat }.
+
+Definition arr_set (store : list (list nat)) (a i x : nat) : list (list nat) :=
+  map (fun ia => if Nat.eqb (fst ia) a then set_nth i x (snd ia) else snd ia)
+      (combine (seq 0 (length store)) store).
+
+Definition slice_append (store : list (list nat)) (s : slice) (x : nat) : list (list nat) * slice :=
+  match s_arr s with
+  | Some a =>
+      if (s_len s <? 8)%nat then (arr_set store a (s_len s) x, mkS (Some a) (S (s_len s)))
+      else (store ++ [firstn (s_len s) (nth a store []) ++ x :: repeat 0%nat 7], mkS (Some (length store)) (S (s_len s)))
+  | None => (store ++ [x :: repeat 0%nat 7], mkS (Some (length store)) 1)
+  end.
+
+Definition slice_read (store : list (list nat)) (s : slice) : list nat :=
+  match s_arr s with Some a => firstn (s_len s) (nth a store []) | None => [] end.
+
+Fixpoint alias_run (store : list (list nat)) (vars : list slice) (pruned : list (list nat)) (is : list instr)
+  : list (list nat) :=
+  match is with
+  | [] => pruned
+  | IRef src k :: t =>
+      match nth_error vars src with
+      | Some s => let '(store', s') := slice_append store s k in alias_run store' (vars ++ [s']) pruned t
+      | None => alias_run store vars pruned t
+      end
+  | IPrune v :: t =>
+      match nth_error vars v with
+      | Some s => alias_run store vars (pruned ++ [slice_read store s]) t
+      | None => alias_run store vars pruned t
+      end
+  end.
+
+(* p := c.Ref(0); l := p.Ref(0); r := p.Ref(1); l.Prune() *)
+Definition sibling_prog : list instr := [IRef 0 0; IRef 1 0; IRef 1 1; IPrune 2].
+
+Theorem appended_slice_position_refuted :
+  prog_prunes sibling_prog = [[0%nat; 0%nat]] /\
+  alias_run [] [mkS None 0] [] sibling_prog = [[0%nat; 1%nat]] /\
+  (* depth-first use (finish one child before taking the next) does not show it *)
+  alias_run [] [mkS None 0] [] [IRef 0 0; IRef 1 0; IPrune 2; IRef 1 1] =
+  prog_prunes [IRef 0 0; IRef 1 0; IPrune 2; IRef 1 1].
+Proof. repeat split; vm_compute; reflexivity. Qed.
